@@ -213,6 +213,46 @@ def run(chk: Check) -> None:
             acts = [s for s in w.body if any(isinstance(x, ast.Delete) or (isinstance(x, ast.Call) and last_name(x) in ('remove', 'unlink', 'pop')) for x in ast.walk(s))]
             ok = ok or (bool(sup) and bool(acts))
         chk.ob('PAIR-idempotent-delete', df, ok, f'{cls.name}.delete_checkpoint tolerates a checkpoint that does not exist', kind='missing-tolerated')
+    # listing: the file-name PATTERN handed to fnmatch / glob is made of constants.  A key (pid, tag) spliced into a pattern is interpreted -- '[', '*', '?' in a
+    # process id select other files and miss its own -- unless it went through glob.escape / re.escape first
+    n_pat = 0
+    for f_ in pic.vmethods.values():
+        for c_ in calls_in_func(f_):
+            if not (norm(c_.func) in ('fnmatch.filter', 'fnmatch.fnmatch', 'fnmatch.fnmatchcase', 'glob.glob', 'glob.iglob') and c_.args):
+                continue
+            n_pat += 1
+            pat = c_.args[-1] if norm(c_.func).startswith('fnmatch') else c_.args[0]
+            srcs = [(f_, pat)]
+            seen_ = set()
+            tainted = None
+            for _ in range(5):
+                nxt = []
+                for h_, e_ in srcs:
+                    for x_ in ast.walk(e_):
+                        if isinstance(x_, ast.Call) and last_name(x_) in ('pickle_filename', '_pickle_filepath'):
+                            tainted = tainted or x_
+                        if isinstance(x_, ast.Name) and (h_.qualname, x_.id) not in seen_:
+                            seen_.add((h_.qualname, x_.id))
+                            if x_.id in ('pid', 'tag') and x_.id in h_.params:
+                                tainted = tainted or x_
+                            # a local: what it was assigned / what it iterates over;  a parameter: what the callers pass
+                            for n_ in ast.walk(h_.node):
+                                if isinstance(n_, ast.Assign) and any(norm(t_) == x_.id for t_ in n_.targets):
+                                    nxt.append((h_, n_.value))
+                                elif isinstance(n_, ast.For) and norm(n_.target) == x_.id:
+                                    nxt.append((h_, n_.iter))
+                            if x_.id in h_.params or (h_.node.args.vararg is not None and h_.node.args.vararg.arg == x_.id):
+                                for g_ in pic.vmethods.values():
+                                    for n_ in ast.walk(g_.node):
+                                        if isinstance(n_, ast.Call) and last_name(n_) == h_.name:
+                                            nxt.extend((g_, a_) for a_ in list(n_.args) + [k_.value for k_ in n_.keywords])
+                # (an escaped key is data again)
+                srcs = [(h_, e_) for h_, e_ in nxt if not (isinstance(e_, ast.Call) and last_name(e_) == 'escape')]
+                if not srcs:
+                    break
+            chk.ob('SIB-key-function', f_, tainted is None, 'the pattern the directory is scanned with is built from constants only' + ('' if tainted is None else
+                   f': {norm(tainted)} reaches it unescaped -- a process id containing pattern characters ("sweep[1]") lists, and deletes, the wrong checkpoints'), node=c_, kind='scan-pattern-constant')
+    chk.floor('SIB-key-function:scan-patterns', n_pat, 1)
     md = prog.view(mem.vmethods['delete_process_checkpoints'])
     dels = [n for n in ast.walk(md.node) if isinstance(n, ast.Delete)]
     ok = len(dels) == 1 and norm(dels[0].targets[0]) == f'self._checkpoints[{md.params[1]}]'
